@@ -186,6 +186,16 @@ def main():
 
     prop = a.prop
     mod = importlib.import_module("checks." + prop.lower())
+    replay_payload, replay_sig = None, None
+    if a.replay:
+        replay_payload = json.load(open(a.replay))
+        if not hasattr(mod, "replay"):
+            # generic replay: every random choice of a check derives from (seed, tier), so the recorded run is repeated exactly
+            # and only the recorded failure is looked for
+            seed = int(replay_payload.get("seed", seed))
+            a.tier = replay_payload.get("tier", a.tier) if replay_payload.get("tier") in ("quick", "thorough") else a.tier
+            f0 = replay_payload.get("failure") or {}
+            replay_sig = (f0.get("component"), (f0.get("what") or "")[:80]) if f0 else None
     cx = Cx(prop, a.tier, seed)
     cx.module = mod
     t0 = time.time()
@@ -238,10 +248,14 @@ def main():
     # 5.-6. implementation + correspondence
     run_error = None
     try:
-        if a.replay:
-            mod.replay(cx, json.load(open(a.replay)))
+        if a.replay and hasattr(mod, "replay"):
+            mod.replay(cx, replay_payload)
         else:
             mod.run(cx)
+            if a.replay and replay_sig is not None:
+                cx.failures = [f for f in cx.failures if (f["component"], f["what"][:80]) == replay_sig]
+                cx.notes.append("generic replay: re-ran the whole check at seed %d, tier %s; %d failure(s) with the recorded signature"
+                                % (seed, a.tier, len(cx.failures)))
     except RuntimeError as e:
         run_error = str(e)
     except Exception:
@@ -303,7 +317,7 @@ def main():
         cov["exhaustive"] = bool(cx.exhaustive)
     ev = {"property_id": prop, "tier": a.tier, "seed": seed, "level": "proof", "coverage": cov,
           "assumptions": list(getattr(mod, "ASSUMPTIONS", [])), "wall_s": round(wall, 2), "violations": nviol}
-    evdir = paths.EVIDENCE if not a.no_lean else "/tmp/verif-dev-evidence"      # development runs never touch the committed evidence
+    evdir = paths.EVIDENCE if not (a.no_lean or a.replay) else "/tmp/verif-dev-evidence"      # development runs and replays never touch the committed evidence
     os.makedirs(evdir, exist_ok=True)
     json.dump(ev, open(os.path.join(evdir, prop + ".json"), "w"), indent=1, default=str)
 
